@@ -1,1 +1,289 @@
 // Kani contract harnesses for /repo/arrow-arith/src/boolean.rs (child module: sees private items via super::)
+//
+// Boolean kernels on BooleanArray: per row = the (three-valued) truth table of the operation.
+// Shape (DESIGN C12): every operand is ONE 64-bit-aligned word - 64 rows, bit offset 0 - so the kernels'
+// word closures (`|a, b| a | !b`, `(a | (c & !d)) & (c | (a & !b))`, ...) are exercised through the
+// REAL kernel on all 2^64 contents per buffer (values and validity words fully symbolic, up to 2^256
+// joint contents), and the row index is symbolic: the unit is complete in contents at this shape; a
+// changed closure formula fails it.  Arbitrary offsets / lengths are the business of the C19 units on
+// from_bitwise_binary_op / bitwise_quaternary_op_helper (sliced 2-byte kernels did not finish: DESIGN 3).
+// Presence of a validity buffer is a const parameter (one harness per combination).
+// Forget rule: every BooleanArray / Result is mem::forget-ed.  Stubs: alloc::fmt::format.
+use super::*;
+use arrow_buffer::Buffer;
+#[path = "/verif/kani/support/spec.rs"]
+mod spec;
+use spec::*;
+
+const ROWS: usize = 64;
+
+fn mk(values: u64, has_nulls: bool, valid: u64) -> BooleanArray {
+    let v = BooleanBuffer::new(Buffer::from_slice_ref(&values.to_le_bytes()), 0, ROWS);
+    let n = if has_nulls { Some(NullBuffer::new(BooleanBuffer::new(Buffer::from_slice_ref(&valid.to_le_bytes()), 0, ROWS))) } else { None };
+    BooleanArray::new(v, n)
+}
+/// logical value of row i: None = null
+fn row(values: u64, has_nulls: bool, valid: u64, i: usize) -> Option<bool> {
+    if has_nulls && (valid >> i) & 1 == 0 { None } else { Some((values >> i) & 1 == 1) }
+}
+fn out_row(o: &BooleanArray, i: usize) -> Option<bool> { if o.is_null(i) { None } else { Some(o.value(i)) } }
+
+#[derive(Clone, Copy)]
+enum Op { AndKleene, OrKleene, And, Or, AndNot }
+
+/// truth tables, written from the Kleene / SQL three-valued logic definitions
+fn table(op: Op, l: Option<bool>, r: Option<bool>) -> Option<bool> {
+    match op {
+        Op::AndKleene => match (l, r) {
+            (Some(false), _) | (_, Some(false)) => Some(false),
+            (Some(true), Some(true)) => Some(true),
+            _ => None,
+        },
+        Op::OrKleene => match (l, r) {
+            (Some(true), _) | (_, Some(true)) => Some(true),
+            (Some(false), Some(false)) => Some(false),
+            _ => None,
+        },
+        Op::And => match (l, r) { (Some(a), Some(b)) => Some(a && b), _ => None },
+        Op::Or => match (l, r) { (Some(a), Some(b)) => Some(a || b), _ => None },
+        Op::AndNot => match (l, r) { (Some(a), Some(b)) => Some(a && !b), _ => None },
+    }
+}
+
+// Contract (C12, C02): for two 64-row BooleanArrays (one aligned word each; all values bits, all
+// validity bits and the bits under null slots symbolic) and every row i: the output row of
+// and_kleene / or_kleene / and / or / and_not equals the three-valued truth table of the operation
+// applied to the logical input rows (null = unknown for the Kleene forms; null-propagating for and / or
+// / and_not), the output has 64 rows and the call succeeds.  The value bit of a null output row is
+// not constrained (not observable).  Bits hidden under input nulls never influence the result.
+fn binary_case<const LH: bool, const RH: bool>(op: Op) {
+    let (lv, ln, rv, rn): (u64, u64, u64, u64) = (kani::any(), kani::any(), kani::any(), kani::any());
+    let (l, r) = (mk(lv, LH, ln), mk(rv, RH, rn));
+    let res = match op {
+        Op::AndKleene => and_kleene(&l, &r),
+        Op::OrKleene => or_kleene(&l, &r),
+        Op::And => and(&l, &r),
+        Op::Or => or(&l, &r),
+        Op::AndNot => and_not(&l, &r),
+    };
+    let i: usize = kani::any();
+    kani::assume(i < ROWS);
+    let (a, b) = (row(lv, LH, ln, i), row(rv, RH, rn, i));
+    let want = table(op, a, b);
+    match &res {
+        Ok(o) => {
+            assert!(o.len() == ROWS);
+            assert!(out_row(o, i) == want);
+        }
+        Err(_) => assert!(false),
+    }
+    kani::cover!(want == Some(true));
+    kani::cover!(want == Some(false) && i == 63);
+    kani::cover!(!(LH || RH) || want.is_none());
+    kani::cover!(!(LH || RH) || (want.is_some() && (a.is_none() || b.is_none())) || matches!(op, Op::And | Op::Or | Op::AndNot));
+    std::mem::forget(res);
+    std::mem::forget(l);
+    std::mem::forget(r);
+}
+macro_rules! bin_unit {
+    ($name:ident, $lh:expr, $rh:expr, $op:expr) => {
+        #[kani::proof]
+        #[kani::unwind(10)]
+        #[kani::stub(alloc::fmt::format, stub_format)]
+        fn $name() { binary_case::<$lh, $rh>($op) }
+    };
+}
+// @unit name=and_kleene_nn props=C12,C02 kind=bounded bound=64_rows_one_aligned_word_both_validity_buffers_(all_contents) fns=and_kleene mem=4 tier=thorough was_quick=1 confirmed=0
+bin_unit!(and_kleene_nn, true, true, Op::AndKleene);
+// @unit name=and_kleene_n_ props=C12,C02 kind=bounded bound=64_rows_one_aligned_word_left_validity_buffer_(all_contents) fns=and_kleene mem=4 tier=thorough was_quick=1 confirmed=0
+bin_unit!(and_kleene_n_, true, false, Op::AndKleene);
+// @unit name=and_kleene__n props=C12,C02 kind=bounded bound=64_rows_one_aligned_word_right_validity_buffer_(all_contents) fns=and_kleene mem=4 tier=thorough was_quick=1 confirmed=0
+bin_unit!(and_kleene__n, false, true, Op::AndKleene);
+// @unit name=and_kleene___ props=C12,C02 kind=bounded bound=64_rows_one_aligned_word_no_validity_buffer_(all_contents) fns=and_kleene mem=4 tier=thorough was_quick=1 confirmed=0
+bin_unit!(and_kleene___, false, false, Op::AndKleene);
+// @unit name=or_kleene_nn props=C12,C02 kind=bounded bound=64_rows_one_aligned_word_both_validity_buffers_(all_contents) fns=or_kleene mem=4 tier=thorough was_quick=1 confirmed=0
+bin_unit!(or_kleene_nn, true, true, Op::OrKleene);
+// @unit name=or_kleene_n_ props=C12,C02 kind=bounded bound=64_rows_one_aligned_word_left_validity_buffer_(all_contents) fns=or_kleene mem=4 tier=thorough was_quick=1 confirmed=0
+bin_unit!(or_kleene_n_, true, false, Op::OrKleene);
+// @unit name=or_kleene__n props=C12,C02 kind=bounded bound=64_rows_one_aligned_word_right_validity_buffer_(all_contents) fns=or_kleene mem=4 tier=thorough was_quick=1 confirmed=0
+bin_unit!(or_kleene__n, false, true, Op::OrKleene);
+// @unit name=or_kleene___ props=C12,C02 kind=bounded bound=64_rows_one_aligned_word_no_validity_buffer_(all_contents) fns=or_kleene mem=4 tier=thorough was_quick=1 confirmed=0
+bin_unit!(or_kleene___, false, false, Op::OrKleene);
+// @unit name=and_nn props=C12,C02 kind=bounded bound=64_rows_one_aligned_word_both_validity_buffers_(all_contents) fns=and,binary_boolean_kernel mem=4 tier=thorough was_quick=1 confirmed=0
+bin_unit!(and_nn, true, true, Op::And);
+// @unit name=and_n_ props=C12,C02 kind=bounded bound=64_rows_one_aligned_word_left_validity_buffer_(all_contents) fns=and,binary_boolean_kernel mem=4 tier=thorough was_quick=1 confirmed=0
+bin_unit!(and_n_, true, false, Op::And);
+// @unit name=and___ props=C12,C02 kind=bounded bound=64_rows_one_aligned_word_no_validity_buffer_(all_contents) fns=and,binary_boolean_kernel mem=4 tier=thorough was_quick=1 confirmed=0
+bin_unit!(and___, false, false, Op::And);
+// @unit name=or_nn props=C12,C02 kind=bounded bound=64_rows_one_aligned_word_both_validity_buffers_(all_contents) fns=or,binary_boolean_kernel mem=4 tier=thorough was_quick=1 confirmed=0
+bin_unit!(or_nn, true, true, Op::Or);
+// @unit name=or__n props=C12,C02 kind=bounded bound=64_rows_one_aligned_word_right_validity_buffer_(all_contents) fns=or,binary_boolean_kernel mem=4 tier=thorough was_quick=1 confirmed=0
+bin_unit!(or__n, false, true, Op::Or);
+// @unit name=and_not_nn props=C12,C02 kind=bounded bound=64_rows_one_aligned_word_both_validity_buffers_(all_contents) fns=and_not,binary_boolean_kernel mem=4 tier=thorough was_quick=1 confirmed=0
+bin_unit!(and_not_nn, true, true, Op::AndNot);
+// @unit name=and_not___ props=C12,C02 kind=bounded bound=64_rows_one_aligned_word_no_validity_buffer_(all_contents) fns=and_not,binary_boolean_kernel mem=4 tier=thorough was_quick=1 confirmed=0
+bin_unit!(and_not___, false, false, Op::AndNot);
+
+// Contract (C12, C02): not(a) on a 64-row BooleanArray (one aligned word, all contents): row i of the
+// output is null <=> row i of the input is null, and otherwise the negation of the input value; 64 rows; Ok.
+fn not_case<const H: bool>() {
+    let (v, n): (u64, u64) = (kani::any(), kani::any());
+    let a = mk(v, H, n);
+    let res = not(&a);
+    let i: usize = kani::any();
+    kani::assume(i < ROWS);
+    let want = row(v, H, n, i).map(|x| !x);
+    match &res {
+        Ok(o) => assert!(o.len() == ROWS && out_row(o, i) == want),
+        Err(_) => assert!(false),
+    }
+    kani::cover!(want == Some(true));
+    kani::cover!(!H || want.is_none());
+    std::mem::forget(res);
+    std::mem::forget(a);
+}
+// @unit name=not_n props=C12,C02 kind=bounded bound=64_rows_one_aligned_word_validity_buffer_(all_contents) fns=not mem=4 tier=thorough was_quick=1 confirmed=0
+#[kani::proof]
+#[kani::unwind(10)]
+#[kani::stub(alloc::fmt::format, stub_format)]
+fn not_n() { not_case::<true>() }
+// @unit name=not__ props=C12,C02 kind=bounded bound=64_rows_one_aligned_word_no_validity_buffer_(all_contents) fns=not mem=4 tier=thorough was_quick=1 confirmed=0
+#[kani::proof]
+#[kani::unwind(10)]
+#[kani::stub(alloc::fmt::format, stub_format)]
+fn not__() { not_case::<false>() }
+
+// Contract (C12): the binary boolean kernels reject operands of different lengths (64 vs 8 rows) with
+// Err, for all contents.
+// @unit name=bool_len_mismatch props=C12 kind=bounded bound=64_rows_vs_8_rows fns=and_kleene,or_kleene,and,or,and_not,binary_boolean_kernel mem=4 tier=thorough was_quick=1 confirmed=0
+#[kani::proof]
+#[kani::unwind(10)]
+#[kani::stub(alloc::fmt::format, stub_format)]
+fn bool_len_mismatch() {
+    let (lv, rv): (u64, u8) = (kani::any(), kani::any());
+    let l = mk(lv, false, 0);
+    let r = BooleanArray::new(BooleanBuffer::new(Buffer::from_slice_ref(&[rv]), 0, 8), None);
+    let rs = (and_kleene(&l, &r), or_kleene(&l, &r), and(&l, &r), or(&l, &r), and_not(&l, &r));
+    assert!(rs.0.is_err() && rs.1.is_err() && rs.2.is_err() && rs.3.is_err() && rs.4.is_err());
+    kani::cover!(rs.0.is_err());
+    std::mem::forget((rs, l, r));
+}
+
+// ------------------------------------------------------------------------------------------------
+// Sliced operands at CONCRETE, mutually different bit offsets (grid rule): the left values, left
+// validity, right values and right validity bitmaps each start at their own bit offset inside a
+// 3-byte buffer, 12 rows.  Catches an offset taken from the wrong operand / wrong bitmap, which the
+// aligned one-word units above cannot see.  Contents, validity and bits under nulls are symbolic.
+// ------------------------------------------------------------------------------------------------
+const SL: usize = 12;
+const SB: usize = 3;
+
+fn mk_sliced(values: &[u8; SB], voff: usize, has_nulls: bool, valid: &[u8; SB], noff: usize) -> BooleanArray {
+    let v = BooleanBuffer::new(Buffer::from_slice_ref(values), voff, SL);
+    let n = if has_nulls { Some(NullBuffer::new(BooleanBuffer::new(Buffer::from_slice_ref(valid), noff, SL))) } else { None };
+    BooleanArray::new(v, n)
+}
+fn row_sliced(values: &[u8; SB], voff: usize, has_nulls: bool, valid: &[u8; SB], noff: usize, i: usize) -> Option<bool> {
+    if has_nulls && !bit(valid, noff + i) { None } else { Some(bit(values, voff + i)) }
+}
+
+// Contract (C12, C02): as binary_case, on 12-row operands sliced at the concrete bit offsets
+// (left values LV, left validity LN, right values RV, right validity RN): for every row i the output
+// row equals the three-valued truth table applied to the logical input rows; 12 rows; Ok.  Checked
+// for every operation of the group on the same symbolic inputs.
+fn sliced_case<const LV: usize, const LN: usize, const RV: usize, const RN: usize, const LH: bool, const RH: bool>(kleene: bool) {
+    let (lv, ln, rv, rn): ([u8; SB], [u8; SB], [u8; SB], [u8; SB]) = (kani::any(), kani::any(), kani::any(), kani::any());
+    let (l, r) = (mk_sliced(&lv, LV, LH, &ln, LN), mk_sliced(&rv, RV, RH, &rn, RN));
+    let i: usize = kani::any();
+    kani::assume(i < SL);
+    let (a, b) = (row_sliced(&lv, LV, LH, &ln, LN, i), row_sliced(&rv, RV, RH, &rn, RN, i));
+    macro_rules! run {
+        ($f:ident, $op:expr) => {{
+            let res = $f(&l, &r);
+            match &res {
+                Ok(o) => assert!(o.len() == SL && out_row(o, i) == table($op, a, b)),
+                Err(_) => assert!(false),
+            }
+            std::mem::forget(res);
+        }};
+    }
+    if kleene {
+        run!(and_kleene, Op::AndKleene);
+        run!(or_kleene, Op::OrKleene);
+    } else {
+        run!(and, Op::And);
+        run!(or, Op::Or);
+        run!(and_not, Op::AndNot);
+    }
+    kani::cover!(a == Some(true) && b == Some(false) && i == SL - 1);
+    kani::cover!(!(LH || RH) || a.is_none() || b.is_none());
+    kani::cover!(!(LH && RH) || (a.is_none() && b == Some(false)));
+    kani::cover!(i == 0 && a == Some(false) && b == Some(true));
+    std::mem::forget(l);
+    std::mem::forget(r);
+}
+macro_rules! sliced_unit {
+    ($name:ident, $lv:expr, $ln:expr, $rv:expr, $rn:expr, $lh:expr, $rh:expr, $k:expr) => {
+        #[kani::proof]
+        #[kani::unwind(14)]
+        #[kani::stub(alloc::fmt::format, stub_format)]
+        fn $name() { sliced_case::<$lv, $ln, $rv, $rn, $lh, $rh>($k) }
+    };
+}
+// offsets A: left values 3, left validity 1, right values 0, right validity 2
+// @unit name=kleene_sliced_a_nn props=C12,C02 kind=bounded bound=12_rows_offsets_lv3_ln1_rv0_rn2_both_validity_buffers fns=and_kleene,or_kleene mem=4 timeout=1500 tier=thorough was_quick=1 confirmed=0
+sliced_unit!(kleene_sliced_a_nn, 3, 1, 0, 2, true, true, true);
+// @unit name=kleene_sliced_a_n_ props=C12,C02 kind=bounded bound=12_rows_offsets_lv3_ln1_rv0_left_validity_buffer fns=and_kleene,or_kleene mem=4 timeout=1500 tier=thorough was_quick=1 confirmed=0
+sliced_unit!(kleene_sliced_a_n_, 3, 1, 0, 2, true, false, true);
+// @unit name=kleene_sliced_a__n props=C12,C02 kind=bounded bound=12_rows_offsets_lv3_rv0_rn2_right_validity_buffer fns=and_kleene,or_kleene mem=4 timeout=1500 tier=thorough was_quick=1 confirmed=0
+sliced_unit!(kleene_sliced_a__n, 3, 1, 0, 2, false, true, true);
+// @unit name=kleene_sliced_a___ props=C12,C02 kind=bounded bound=12_rows_offsets_lv3_rv0_no_validity_buffer fns=and_kleene,or_kleene mem=4 timeout=1500 tier=thorough was_quick=1 confirmed=0
+sliced_unit!(kleene_sliced_a___, 3, 1, 0, 2, false, false, true);
+// offsets B: left values 0, left validity 2, right values 5, right validity 1
+// @unit name=kleene_sliced_b_nn props=C12,C02 kind=bounded bound=12_rows_offsets_lv0_ln2_rv5_rn1_both_validity_buffers fns=and_kleene,or_kleene mem=4 timeout=1500 tier=thorough was_quick=1 confirmed=0
+sliced_unit!(kleene_sliced_b_nn, 0, 2, 5, 1, true, true, true);
+// @unit name=kleene_sliced_b_n_ props=C12,C02 kind=bounded bound=12_rows_offsets_lv0_ln2_rv5_left_validity_buffer fns=and_kleene,or_kleene mem=4 timeout=1500 tier=thorough was_quick=1 confirmed=0
+sliced_unit!(kleene_sliced_b_n_, 0, 2, 5, 1, true, false, true);
+// @unit name=kleene_sliced_b__n props=C12,C02 kind=bounded bound=12_rows_offsets_lv0_rv5_rn1_right_validity_buffer fns=and_kleene,or_kleene mem=4 timeout=1500 tier=thorough was_quick=1 confirmed=0
+sliced_unit!(kleene_sliced_b__n, 0, 2, 5, 1, false, true, true);
+// @unit name=kleene_sliced_b___ props=C12,C02 kind=bounded bound=12_rows_offsets_lv0_rv5_no_validity_buffer fns=and_kleene,or_kleene mem=4 timeout=1500 tier=thorough was_quick=1 confirmed=0
+sliced_unit!(kleene_sliced_b___, 0, 2, 5, 1, false, false, true);
+// @unit name=andor_sliced_a_nn props=C12,C02 kind=bounded bound=12_rows_offsets_lv3_ln1_rv0_rn2_both_validity_buffers fns=and,or,and_not,binary_boolean_kernel mem=4 timeout=1500 tier=thorough was_quick=1 confirmed=0
+sliced_unit!(andor_sliced_a_nn, 3, 1, 0, 2, true, true, false);
+// @unit name=andor_sliced_a_n_ props=C12,C02 kind=bounded bound=12_rows_offsets_lv3_ln1_rv0_left_validity_buffer fns=and,or,and_not,binary_boolean_kernel mem=4 timeout=1500 tier=thorough was_quick=1 confirmed=0
+sliced_unit!(andor_sliced_a_n_, 3, 1, 0, 2, true, false, false);
+// @unit name=andor_sliced_a__n props=C12,C02 kind=bounded bound=12_rows_offsets_lv3_rv0_rn2_right_validity_buffer fns=and,or,and_not,binary_boolean_kernel mem=4 timeout=1500 tier=thorough was_quick=1 confirmed=0
+sliced_unit!(andor_sliced_a__n, 3, 1, 0, 2, false, true, false);
+// @unit name=andor_sliced_a___ props=C12,C02 kind=bounded bound=12_rows_offsets_lv3_rv0_no_validity_buffer fns=and,or,and_not,binary_boolean_kernel mem=4 timeout=1500 tier=thorough was_quick=1 confirmed=0
+sliced_unit!(andor_sliced_a___, 3, 1, 0, 2, false, false, false);
+// @unit name=andor_sliced_b_nn props=C12,C02 kind=bounded bound=12_rows_offsets_lv0_ln2_rv5_rn1_both_validity_buffers fns=and,or,and_not,binary_boolean_kernel mem=4 timeout=1500 tier=thorough was_quick=1 confirmed=0
+sliced_unit!(andor_sliced_b_nn, 0, 2, 5, 1, true, true, false);
+// @unit name=andor_sliced_b_n_ props=C12,C02 kind=bounded bound=12_rows_offsets_lv0_ln2_rv5_left_validity_buffer fns=and,or,and_not,binary_boolean_kernel mem=4 timeout=1500 tier=thorough was_quick=1 confirmed=0
+sliced_unit!(andor_sliced_b_n_, 0, 2, 5, 1, true, false, false);
+// @unit name=andor_sliced_b__n props=C12,C02 kind=bounded bound=12_rows_offsets_lv0_rv5_rn1_right_validity_buffer fns=and,or,and_not,binary_boolean_kernel mem=4 timeout=1500 tier=thorough was_quick=1 confirmed=0
+sliced_unit!(andor_sliced_b__n, 0, 2, 5, 1, false, true, false);
+// @unit name=andor_sliced_b___ props=C12,C02 kind=bounded bound=12_rows_offsets_lv0_rv5_no_validity_buffer fns=and,or,and_not,binary_boolean_kernel mem=4 timeout=1500 tier=thorough was_quick=1 confirmed=0
+sliced_unit!(andor_sliced_b___, 0, 2, 5, 1, false, false, false);
+
+// Contract (C12, C02): not(a) on a 12-row BooleanArray sliced at values offset 3 / validity offset 1:
+// row i null <=> input row null, else the negated value.
+// @unit name=not_sliced props=C12,C02 kind=bounded bound=12_rows_offsets_v3_n1_validity_buffer fns=not mem=4 timeout=1500 tier=thorough was_quick=1 confirmed=0
+#[kani::proof]
+#[kani::unwind(14)]
+#[kani::stub(alloc::fmt::format, stub_format)]
+fn not_sliced() {
+    let (v, n): ([u8; SB], [u8; SB]) = (kani::any(), kani::any());
+    let a = mk_sliced(&v, 3, true, &n, 1);
+    let res = not(&a);
+    let i: usize = kani::any();
+    kani::assume(i < SL);
+    let want = row_sliced(&v, 3, true, &n, 1, i).map(|x| !x);
+    match &res {
+        Ok(o) => assert!(o.len() == SL && out_row(o, i) == want),
+        Err(_) => assert!(false),
+    }
+    kani::cover!(want == Some(true) && i == SL - 1);
+    kani::cover!(want.is_none());
+    std::mem::forget(res);
+    std::mem::forget(a);
+}
